@@ -218,39 +218,45 @@ example : ∃ s, run {} [.start, .tAcq, .tCheck, .kSet 0, .kAlive 0, .kTry 0, .t
 /-! ### join_or_die -/
 
 theorem fuel_enough (timeout interval : Nat) (hi : 0 < interval) :
-    timeout + interval ≤ 0 + (timeout + 2) * interval := by
+    timeout ≤ 0 + (timeout + 1) * interval := by
   have h1 : timeout ≤ timeout * interval := Nat.le_mul_of_pos_right _ hi
-  have h2 : (timeout + 2) * interval = timeout * interval + 2 * interval := Nat.add_mul _ _ _
+  have h2 : (timeout + 1) * interval = timeout * interval + interval := by rw [Nat.add_mul]; simp
   omega
 
-theorem joinLoop_own_of_lt (fuel now deadline interval dv h : Nat) (tie : Bool) (hi : 0 < interval)
-    (hf : deadline + interval ≤ now + fuel * interval) (hn : now < deadline + interval) (hd : dv < deadline) :
+theorem joinLoop_own_of_lt (fuel now deadline interval dv h : Nat) (tie : Bool)
+    (hf : deadline ≤ now + fuel * interval) (hn : now ≤ deadline) (hd : dv < deadline) :
     (joinLoop fuel now deadline interval (some dv) h tie).1 = .own := by
   induction fuel generalizing now with
-  | zero => simp at hf; omega
+  | zero =>
+    have : dv < now := by simp at hf; omega
+    simp [joinLoop, joinExit, this]
   | succ fuel ih =>
     simp only [joinLoop]
+    have hmul : (fuel + 1) * interval = fuel * interval + interval := by rw [Nat.add_mul]; simp
     split
     · split
       · rfl
-      · have : (fuel + 1) * interval = fuel * interval + interval := by rw [Nat.add_mul]; simp
-        apply ih <;> omega
-    · rename_i hge
-      have : dv < now := by omega
-      simp [this]
+      · apply ih <;> omega
+    · have : dv < now := by omega
+      simp [joinExit, this]
 
 /-- C12: a body that returns before its deadline is never reported as timed out, for every duration,
     deadline, poll interval, handler duration and tie-break. -/
 theorem c12_no_false_timeout (timeout interval dv h : Nat) (tie : Bool) (hi : 0 < interval) (hd : dv < timeout) :
     (joinOrDie timeout interval (some dv) h tie).1 = .own := by
   unfold joinOrDie
-  exact joinLoop_own_of_lt _ _ _ _ _ _ _ hi (fuel_enough _ _ hi) (by omega) hd
+  exact joinLoop_own_of_lt _ _ _ _ _ _ _ (fuel_enough _ _ hi) (by omega) hd
 
-theorem joinLoop_time_bound (fuel now deadline interval h : Nat) (d : Option Nat) (tie : Bool) (hi : 0 < interval)
-    (hf : deadline + interval ≤ now + fuel * interval) (hn : now < deadline + interval) :
-    (joinLoop fuel now deadline interval d h tie).2 < deadline + interval := by
+theorem joinExit_time (now : Nat) (d : Option Nat) (tie : Bool) : (joinExit now d tie).2 = now := by
+  unfold joinExit; cases d with
+  | none => rfl
+  | some dv => simp only; split <;> rfl
+
+theorem joinLoop_time_bound (fuel now deadline interval h : Nat) (d : Option Nat) (tie : Bool)
+    (hf : deadline ≤ now + fuel * interval) (hn : now ≤ deadline) :
+    (joinLoop fuel now deadline interval d h tie).2 ≤ deadline := by
   induction fuel generalizing now with
-  | zero => simp at hf; simp [joinLoop]; omega
+  | zero => simp only [joinLoop, joinExit_time]; exact hn
   | succ fuel ih =>
     simp only [joinLoop]
     have hmul : (fuel + 1) * interval = fuel * interval + interval := by rw [Nat.add_mul]; simp
@@ -263,21 +269,20 @@ theorem joinLoop_time_bound (fuel now deadline interval h : Nat) (d : Option Nat
         split
         · rename_i hc; simp only; omega
         · apply ih <;> omega
-    · cases d with
-      | none => simpa using hn
-      | some dv => simp only; split <;> simpa using hn
+    · rw [joinExit_time]; exact hn
 
-/-- C12: the executor proceeds within one poll interval after the deadline, even if the body never returns -/
+/-- C12: the executor proceeds no later than the deadline, even if the body never returns (no join waits
+    beyond the deadline) -/
 theorem c12_bounded_delay (timeout interval h : Nat) (d : Option Nat) (tie : Bool) (hi : 0 < interval) :
-    (joinOrDie timeout interval d h tie).2 < timeout + interval := by
+    (joinOrDie timeout interval d h tie).2 ≤ timeout := by
   unfold joinOrDie
-  exact joinLoop_time_bound _ _ _ _ _ _ _ hi (fuel_enough _ _ hi) (by omega)
+  exact joinLoop_time_bound _ _ _ _ _ _ _ (fuel_enough _ _ hi) (by omega)
 
 theorem joinLoop_never_returns (fuel now deadline interval h : Nat) (tie : Bool) :
     (joinLoop fuel now deadline interval none h tie).1 = .timeout := by
   induction fuel generalizing now with
   | zero => rfl
-  | succ fuel ih => simp only [joinLoop]; split <;> simp [ih]
+  | succ fuel ih => simp only [joinLoop]; split <;> simp [ih, joinExit]
 
 /-- a body that never returns is reported as a timeout -/
 theorem c12_hung_body_times_out (timeout interval h : Nat) (tie : Bool) :
@@ -285,36 +290,57 @@ theorem c12_hung_body_times_out (timeout interval h : Nat) (tie : Bool) :
 
 theorem joinLoop_timeout_only_late (fuel now deadline interval dv h : Nat) (tie : Bool)
     (hres : (joinLoop fuel now deadline interval (some dv) h tie).1 = .timeout)
-    (hf : deadline + interval ≤ now + fuel * interval) (hn : now < deadline + interval)
-    (hi : 0 < interval) : deadline ≤ dv := by
-  induction fuel generalizing now with
-  | zero => simp at hf; omega
-  | succ fuel ih =>
-    simp only [joinLoop] at hres
-    have hmul : (fuel + 1) * interval = fuel * interval + interval := by rw [Nat.add_mul]; simp
-    split at hres
-    · split at hres
-      · cases hres
-      · exact ih (now + interval) hres (by omega) (by omega)
-    · split at hres
-      · cases hres
-      · rename_i hnot; omega
+    (hf : deadline ≤ now + fuel * interval) (hn : now ≤ deadline) : deadline ≤ dv := by
+  false_or_by_contra
+  rename_i hlt
+  have := joinLoop_own_of_lt fuel now deadline interval dv h tie hf hn (by omega)
+  rw [this] at hres; cases hres
 
 /-- C12: TIMEOUT is only ever reported for a body still running at its deadline -/
 theorem c12_timeout_only_if_still_running_at_deadline (timeout interval dv h : Nat) (tie : Bool) (hi : 0 < interval)
     (hres : (joinOrDie timeout interval (some dv) h tie).1 = .timeout) : timeout ≤ dv := by
   unfold joinOrDie at hres
-  exact joinLoop_timeout_only_late _ 0 timeout interval dv h tie hres (fuel_enough _ _ hi) (by omega) hi
+  exact joinLoop_timeout_only_late _ 0 timeout interval dv h tie hres (fuel_enough _ _ hi) (by omega)
+
+theorem joinLoop_late_times_out (fuel now deadline interval dv h : Nat) (tie : Bool)
+    (hn : now ≤ deadline) (hd : deadline < dv) :
+    (joinLoop fuel now deadline interval (some dv) h tie).1 = .timeout := by
+  induction fuel generalizing now with
+  | zero =>
+    have h1 : ¬ dv < now := by omega
+    have h2 : ¬ dv = now := by omega
+    simp [joinLoop, joinExit, h1, h2]
+  | succ fuel ih =>
+    simp only [joinLoop]
+    split
+    · have h1 : ¬ dv + h < min (now + interval) deadline := by omega
+      have h2 : ¬ dv + h = min (now + interval) deadline := by omega
+      simp only [h1, h2, false_and, or_self, if_false]
+      apply ih; omega
+    · have h1 : ¬ dv < now := by omega
+      have h2 : ¬ dv = now := by omega
+      simp [joinExit, h1, h2]
+
+/-- C12: a body still running when its timeout expires is reported as TIMEOUT, whatever the poll interval
+    (also a time-out shorter than the interval, and a body that would have returned before the next poll) -/
+theorem c12_still_running_at_deadline_times_out (timeout interval dv h : Nat) (tie : Bool) (hd : timeout < dv) :
+    (joinOrDie timeout interval (some dv) h tie).1 = .timeout := by
+  unfold joinOrDie
+  exact joinLoop_late_times_out _ 0 timeout interval dv h tie (by omega) hd
+
+/-- the join that waited a whole interval regardless of the deadline (before the `fix:` commit) let a body
+    that overran its time-out keep its result: time-out 1, interval 3, body returns at 2 -/
+example : (joinOrDie 1 3 (some 2) 0 false).1 = .timeout := by decide
 
 /-- the default timeout, DEFAULT_PHASE_TIMEOUT_S regenerated from the source, is the documented 180 s -/
 theorem c12_default_timeout : effectiveTimeoutS none = 180 ∧
     ∀ t, effectiveTimeoutS (some t) = t := ⟨by decide, fun _ => rfl⟩
 
 example : joinOrDie 10 3 (some 9) 0 false = (.own, 9) := by decide
-example : joinOrDie 10 3 (some 11) 0 false = (.own, 11) := by decide   -- returned before the poll noticed: keeps its result
-example : joinOrDie 10 3 (some 13) 0 false = (.timeout, 12) := by decide
+example : joinOrDie 10 3 (some 11) 0 false = (.timeout, 10) := by decide   -- overran its time-out: the last join ends at the deadline
+example : joinOrDie 10 3 (some 13) 0 false = (.timeout, 10) := by decide
 -- the body returned at 9 < 10 but its thread lives until 14: the outcome recorded at 9 is what counts
-example : joinOrDie 10 3 (some 9) 5 false = (.own, 12) := by decide
+example : joinOrDie 10 3 (some 9) 5 false = (.own, 10) := by decide
 example : joinOrDie 0 3 none 0 false = (.timeout, 0) := by decide
 
 end OpenHTF.Kill
